@@ -255,6 +255,16 @@ func detJobs(tier string) []*Job {
 		}
 	}
 	jobs = append(jobs, histJobs(tier)...)
+	// a source longer than 64 KiB (concrete filler) on a reused fast compressor whose table holds
+	// arbitrary values vs a fresh one: beyond the first window the lookups must still ignore what
+	// this call has not written. (On the real code one path; a change that lets stale entries
+	// through makes the table contents matter and the job blows its path budget: inconclusive.)
+	{
+		j := mkJob("det-window-k1v0", "H_compress_det", "internal/lz4block", "verif,noasm", P("n", 65900, "kindA", 1, "kindB", 0, "depth", 0, "dl", -1, "period", 65536, "tail", 0))
+		j.Unwind = 3000000
+		j.MaxPaths = 150
+		jobs = append(jobs, j)
+	}
 	for n := 0; n <= nh; n++ {
 		for _, d := range []int{0, 1, 2, 512} {
 			if tier != "thorough" && n > 14 && d == 1 {
